@@ -47,10 +47,59 @@ func specialReaderInputs(r *vh.Rng, sum *vh.Summary, cw *vh.CaseWriter) {
 		`<n><a>1</a></n><n><a>2</a></n><n><a>3</a></n>`, `<r><n><a>1</a></n></r><r>`,
 	}
 	run := func(format, schema, in, kind string) {
+		// plainly, and in two of the three other modes (which two: by the PRNG)
 		auditTransform(sum, cw, format, schema, []byte(in), kind, nil)
-		auditTransform(sum, cw, format, schema, []byte(in), kind+"+drain-every-read", nil, true, false)
-		auditTransform(sum, cw, format, schema, []byte(in), kind+"+second-owner", nil, false, true)
-		auditTransform(sum, cw, format, schema, []byte(in), kind+"+second-owner+drain", nil, true, true)
+		skip := r.Pick(3)
+		if skip != 0 {
+			auditTransform(sum, cw, format, schema, []byte(in), kind+"+drain-every-read", nil, true, false)
+		}
+		if skip != 1 {
+			auditTransform(sum, cw, format, schema, []byte(in), kind+"+second-owner", nil, false, true)
+		}
+		if skip != 2 {
+			auditTransform(sum, cw, format, schema, []byte(in), kind+"+second-owner+drain", nil, true, true)
+		}
+		// the format's reader driven directly; Read is called again after its terminal result
+		auditTransform(sum, cw, format, schema, []byte(in), kind+"+direct", nil, skip == 0, true, true)
+	}
+	// root-selecting targets that END WITH A FILTER, over documents the filter rejects (and some
+	// it accepts), read to EOF: the filter-miss path removes the root, EOF must not release it again
+	for _, target := range []string{".[a='nope']", ".[a='1']", "/[a='nope']", "/*[a='nope']", ".[x/a='p']", "//x[a='nope']", ".[a!='1'][a!='2']"} {
+		for _, in := range append(jsonInputs, `{"a":"1"}`, `{"a":"nope"}`, `[{"a":"1"}]`, `"scalar"`, `{"a":"2","x":{"a":"p"}}`) {
+			run("json", jsonSchema(target), in, "root-target-with-filter")
+		}
+	}
+	for _, target := range []string{"/*[a='nope']", "/*[n/a='1']", ".[r/n/a='nope']", "/r[n/a='nope']", "/r/n[a='nope']", "/*[a='1'][a='2']"} {
+		for _, in := range append(xmlInputs, `<r><a>1</a></r>`, `<r><a>nope</a></r>`, `<r a="1"><n><a>2</a></n></r>`, `<r/>`) {
+			run("xml", xmlSchema(target), in, "root-target-with-filter")
+		}
+	}
+	// old fixed-length (v1) and old csv with a FINAL_OUTPUT filter; the LAST envelopes / rows are rejected
+	flSchema := func(target string, byHF bool) string {
+		env := `{ "columns": [ {"name":"a","start_pos":1,"length":3}, {"name":"f","start_pos":4,"length":1} ] }`
+		if byHF {
+			env = `{ "name": "e", "by_header_footer": { "header": "^H", "footer": "^T" },
+  "columns": [ {"name":"a","start_pos":2,"length":3,"line_pattern":"^H"}, {"name":"f","start_pos":5,"length":1,"line_pattern":"^H"} ] }`
+		}
+		return `{"parser_settings": { "version": "omni.2.1", "file_format_type": "fixed-length" },
+ "file_declaration": { "envelopes": [ ` + env + ` ] },
+ "transform_declarations": { "FINAL_OUTPUT": { "xpath": "` + target + `", "object": { "a": { "xpath": "a", "keep_empty_or_null": true } } } } }`
+	}
+	csvSchema := func(target string) string {
+		return `{"parser_settings": { "version": "omni.2.1", "file_format_type": "csv" },
+ "file_declaration": { "delimiter": ",", "header_row_index": 1, "data_row_index": 2, "columns": [ {"name":"a"}, {"name":"f"} ] },
+ "transform_declarations": { "FINAL_OUTPUT": { "xpath": "` + target + `", "object": { "a": { "xpath": "a", "keep_empty_or_null": true } } } } }`
+	}
+	for _, target := range []string{".[f!='X']", ".[f='K']", ".[a='zzz']"} {
+		for _, in := range []string{"001K\n002K\n003X\n", "001X\n", "001K\n002X\n003X\n004X\n", "001X\n002X\n", "001K\n", "", "001X\n002K\n\n003X\n"} {
+			run("fixed-length", flSchema(target, false), in, "v1-filter-last-rejected")
+		}
+		for _, in := range []string{"H001K\nx\nT\nH002X\nT\n", "H001X\nT\n", "H001K\nT\nH002X\nT\nH003X\nx\ny\nT\n", "H001X\nT\nH002K\n", "H001K\nT\ngarbage\n"} {
+			run("fixed-length", flSchema(target, true), in, "v1-filter-last-rejected")
+		}
+		for _, in := range []string{"a,f\n1,K\n2,X\n", "a,f\n1,X\n", "a,f\n1,K\n2,X\n3,X\n", "a,f\n", "a,f\n1,K\n\"bad\n"} {
+			run("csv", csvSchema(target), in, "v1-filter-last-rejected")
+		}
 	}
 	for _, target := range []string{"", ".", "/", "/*", "//x", "//a", "/*/x"} {
 		for _, in := range jsonInputs {
@@ -62,5 +111,4 @@ func specialReaderInputs(r *vh.Rng, sum *vh.Summary, cw *vh.CaseWriter) {
 			run("xml", xmlSchema(target), in, "concatenated-or-trailing")
 		}
 	}
-	_ = r
 }
